@@ -20,7 +20,8 @@ Inductive cop :=
 
 Inductive case :=
 | CHist (base hw hwslow stres : Z) (ops : list cop)
-| CMap (metric : Z) (tags : list (Z * Z * list Z)) (bytes : list Z).
+| CMap (metric : Z) (tags : list (Z * Z * list Z)) (bytes : list Z)
+       (scratch : list Z) (hashed : list Z). (* bytes = OriginalMarshalAppend(nil); hashed = what OriginalHash(scratch) hashed *)
 
 Definition pair_eqb (a b : Z * Z) : bool := (fst a =? fst b) && (snd a =? snd b).
 Definition count_p (x : Z * Z) (l : list (Z * Z)) : nat := length (filter (pair_eqb x) l).
@@ -87,8 +88,9 @@ Definition mk_tag (p : Z * Z * list Z) : tag :=
 Definition ok (c : case) : bool :=
   match c with
   | CHist base hw_ hwslow_ stres_ ops => crun base (init_state base hw_ hwslow_ stres_) ops
-  | CMap metric tags bytes =>
-      list_eqb (original_marshal metric (h_otv (map_all_tags (fun _ => None) (fun _ => 0) (map mk_tag tags)))) bytes
+  | CMap metric tags bytes scratch hashed =>
+      let otv := h_otv (map_all_tags (fun _ => None) (fun _ => 0) (map mk_tag tags)) in
+      list_eqb (original_marshal_append [] metric otv) bytes && list_eqb (original_hash_bytes scratch metric otv) hashed
   end.
 
 Definition mism := mismatches ok.
